@@ -57,6 +57,16 @@ RelEnd ==
        ELSE closed' = closed
     /\ UNCHANGED <<st, due, creq, nclients, relBegun>>
 
+(* Quiescence: every thread of the program is blocked and only the passing of time can wake one (the harness reports it  *)
+(* together with the number of times its virtual clock has so far jumped while a thread could have run).  On a clock     *)
+(* that only moves when nobody can run, a task whose time has come cannot still be waiting at such a moment: whoever      *)
+(* handed it over has returned, the scheduler thread has seen it (or it has been lost), and nothing else will happen      *)
+(* until time passes - "no interleaving loses a task", observed without waiting for the final release.  When the clock    *)
+(* has jumped under a runnable thread the scheduler thread may legitimately be late, so nothing is demanded then.         *)
+Idle(vt, unforced) ==
+    /\ unforced = 0 => \A t \in Tasks : st[t] = "pending" => ~TimeLE(due[t], vt)
+    /\ UNCHANGED absvars
+
 (* end of the execution: scheduler thread exited and joined, nothing leaked *)
 Finished(live, unjoined) == closed /\ live = 0 /\ unjoined = 0 /\ UNCHANGED absvars
 
